@@ -230,7 +230,7 @@ theorem read2_segs (tail : List Nat) : ∀ (segs : List (Nat × Nat × Nat)) (i 
       intro ⟨hi0, hsp⟩
       rw [if_neg (by omega)] at hb
       omega
-    rw [if_neg hcond]
+    rw [if_neg hcond, if_neg (by omega)]
     rw [read2_segs tail rest (i + 1) e (by rw [if_neg (by omega)]; exact hrest)
       (fun r hr => hlt r (by simp [hr]))]
     simp [entriesOf]
